@@ -44,6 +44,16 @@ Fixpoint attrs_eqb (a b : attrs) : bool :=
   | _, _ => false
   end.
 
+(* LogMessage::updateAttributes with the hash built from the pairs: every returned key gets the returned value *)
+Fixpoint merge_many (kvs : list (str * str)) (a : attrs) : attrs :=
+  match kvs with [] => a | (k, v) :: r => merge_many r (insert k (VStr v) a) end.
+(* the value the returned hash holds for k *)
+Fixpoint last_val (k : str) (kvs : list (str * str)) : option str :=
+  match kvs with
+  | [] => None
+  | (k', v) :: r => match last_val k r with Some x => Some x | None => if seqb k k' then Some v else None end
+  end.
+
 (* [fmt = None] is the null QString = "not formatted" (logmessage.h:92); [Some []] is formatted with "" *)
 Record msg := { mt : mtype; text : str; fmt : option str; mattrs : attrs }.
 Definition is_formatted (m : msg) : bool := match fmt m with Some _ => true | None => false end.
@@ -77,6 +87,7 @@ Definition eval (p : pred) (m : msg) : bool :=
 Inductive leaf :=
 | LAttrSet (k v : str)              (* FunctionAttrHandler returning {k: v} *)
 | LAttrCopy (k : str)               (* FunctionAttrHandler returning {k: formattedMessage()} *)
+| LAttrSetMany (kvs : list (str * str))  (* FunctionAttrHandler returning several pairs (later pairs of the list win) *)
 | LFilter (p : pred)                (* FunctionFilter *)
 | LFmtTag (tag : str)               (* FunctionFormatter: tag ":" shown *)
 | LFmtAttr (tag k : str)            (* FunctionFormatter: tag "[" attribute k "]" *)
@@ -154,6 +165,7 @@ Definition exec_leaf (c : pipe_cfg) (o : nat) (l : leaf) (st : store) (m : msg) 
   match l with
   | LAttrSet k v => (st, set_at m (insert k (VStr v) (mattrs m)), attr_continues c, [EExec o true])
   | LAttrCopy k => (st, set_at m (insert k (VStr (shown m)) (mattrs m)), attr_continues c, [EExec o true])
+  | LAttrSetMany kvs => (st, set_at m (merge_many kvs (mattrs m)), attr_continues c, [EExec o true])
   | LFilter p => let v := eval p m in (st, m, if filter_returns_verdict c then v else true, [EExec o v])
   | LFmtTag tag => (st, apply_fmt c m (Some (tag ++ [58%N] ++ shown m)), fmt_continues c, [EExec o true])
   | LFmtAttr tag k =>
@@ -250,7 +262,7 @@ Definition leaf_event (o : nat) (l : leaf) (e : event) : option bool :=
   | LSink, EDeliver o' false _ => if Nat.eqb o o' then Some true else None
   | LProbe, EDeliver o' true _ => if Nat.eqb o o' then Some true else None
   | (LSink | LProbe), _ => None
-  | (LAttrSet _ _ | LAttrCopy _ | LFmtTag _ | LFmtAttr _ _ | LFmtNull | LFmtEmpty | LSeq _), EExec o' r =>
+  | (LAttrSet _ _ | LAttrCopy _ | LAttrSetMany _ | LFmtTag _ | LFmtAttr _ _ | LFmtNull | LFmtEmpty | LSeq _), EExec o' r =>
       if Nat.eqb o o' && r then Some true else None
   | (LFilter _ | LDup | LLevel _), EExec o' r => if Nat.eqb o o' then Some r else None
   | (LGenSet _ _ r0 | LGenRemove _ r0 | LGenFmt _ r0 | LGenClear r0), EExec o' r =>
@@ -377,6 +389,11 @@ Definition effect_seen (l : leaf) (c : content) : bool :=
   | LGenFmt tag _ => c_formatted c && prefixb tag (c_text c)
   | LAttrSet k v | LGenSet k v _ => match lookup k (c_attrs c) with Some (VStr v') => seqb v v' | _ => false end
   | LGenRemove k _ => match lookup k (c_attrs c) with None => true | Some _ => false end
+  | LAttrSetMany kvs =>
+      forallb (fun kv => match last_val (fst kv) kvs with
+                         | Some v => match lookup (fst kv) (c_attrs c) with Some (VStr v') => seqb v v' | _ => false end
+                         | None => true
+                         end) kvs
   | LSeq name => match lookup name (c_attrs c) with Some (VInt _) => true | _ => false end
   | _ => true
   end.
